@@ -1,7 +1,1531 @@
-//! C11: not implemented yet.
+//! C11: every stored value reads back unchanged.
+//!
+//! For every column type of the README "Data Types" table that `OwnedValue` can carry, boundary-stratified
+//! values are written by SQL literal and by bound parameter, via INSERT and via UPDATE, and read back by full
+//! scan, by primary-key lookup, after a large neighbour row was written, and after close + reopen.
+//! Sub-assertion `same_type_same_value`; the expectation is computed by the harness (own calendar arithmetic,
+//! own JSON comparison) with the type's documented narrowing applied to the EXPECTATION only.
+use crate::report::{catch, Ctx};
+use crate::rng::{fnv, Rng};
+use crate::sqlm::db::{is_panic, panic_tag, Db, Scratch};
 use crate::Args;
+use serde_json::{json, Value as J};
+use std::collections::BTreeMap;
+use turdb::records::jsonb::{JsonbBuilder, JsonbBuilderValue, JsonbValue, JsonbView};
+use turdb::records::types::{ColumnDef as RColumnDef, DataType as RDT};
+use turdb::OwnedValue as OV;
 
-pub fn run(_a: &Args) -> i32 {
-    println!("INCONCLUSIVE property=C11 reason=check not implemented yet");
-    2
+// ---------------------------------------------------------------------------------------------
+// expectations
+
+#[derive(Clone, Debug)]
+pub enum Exp {
+    /// same variant, same value (floats by bit pattern, NaN by NaN-ness)
+    Exact(OV),
+    /// REAL: the written f64 or its nearest f32 (documented narrowing), by bit pattern
+    FloatAny(Vec<f64>),
+    /// DECIMAL, exactly representable values only: Decimal with equal numeric value, or Float equal to it
+    DecimalNum(i128, i16),
+    /// CHAR(n): padding is undocumented, so only equality after trimming trailing spaces is asserted
+    CharTrim(String),
+    /// JSONB: compared as JSON values
+    Json(J),
+    /// TIMESTAMPTZ written by a literal without offset: variant TimestampTz with these micros (offset not judged)
+    TsTzMicros(i64),
+}
+
+fn f64_same(a: f64, b: f64) -> bool {
+    if a.is_nan() {
+        b.is_nan()
+    } else {
+        a.to_bits() == b.to_bits()
+    }
+}
+fn f32_same(a: f32, b: f32) -> bool {
+    if a.is_nan() {
+        b.is_nan()
+    } else {
+        a.to_bits() == b.to_bits()
+    }
+}
+
+fn ov_same(a: &OV, b: &OV) -> bool {
+    match (a, b) {
+        (OV::Float(x), OV::Float(y)) => f64_same(*x, *y),
+        (OV::Vector(x), OV::Vector(y)) => x.len() == y.len() && x.iter().zip(y.iter()).all(|(p, q)| f32_same(*p, *q)),
+        (OV::Point(a1, a2), OV::Point(b1, b2)) => f64_same(*a1, *b1) && f64_same(*a2, *b2),
+        (OV::Box(a1, a2), OV::Box(b1, b2)) => f64_same(a1.0, b1.0) && f64_same(a1.1, b1.1) && f64_same(a2.0, b2.0) && f64_same(a2.1, b2.1),
+        (OV::Circle(a1, r1), OV::Circle(b1, r2)) => f64_same(a1.0, b1.0) && f64_same(a1.1, b1.1) && f64_same(*r1, *r2),
+        _ => a == b,
+    }
+}
+
+pub fn jsonb_to_json(bytes: &[u8]) -> Result<J, String> {
+    fn conv(v: JsonbValue<'_>) -> Result<J, String> {
+        Ok(match v {
+            JsonbValue::Null => J::Null,
+            JsonbValue::Bool(b) => J::Bool(b),
+            JsonbValue::Number(n) => serde_json::Number::from_f64(n).map(J::Number).ok_or_else(|| format!("non-finite number {}", n))?,
+            JsonbValue::String(s) => J::String(s.to_string()),
+            JsonbValue::Array(view) => {
+                let mut out = vec![];
+                for item in view.iter_array().map_err(|e| format!("{:#}", e))? {
+                    out.push(conv(item.map_err(|e| format!("{:#}", e))?)?);
+                }
+                J::Array(out)
+            }
+            JsonbValue::Object(view) => {
+                let mut out = serde_json::Map::new();
+                for item in view.iter_object().map_err(|e| format!("{:#}", e))? {
+                    let (k, v) = item.map_err(|e| format!("{:#}", e))?;
+                    if out.insert(k.to_string(), conv(v)?).is_some() {
+                        return Err(format!("duplicate key {:?}", k));
+                    }
+                }
+                J::Object(out)
+            }
+        })
+    }
+    let r = catch(|| -> Result<J, String> {
+        let view = JsonbView::new(bytes).map_err(|e| format!("{:#}", e))?;
+        conv(view.as_value().map_err(|e| format!("{:#}", e))?)
+    });
+    match r {
+        Ok(x) => x,
+        Err(p) => Err(format!("PANIC: {}", p)),
+    }
+}
+
+pub fn json_eq(a: &J, b: &J) -> bool {
+    match (a, b) {
+        (J::Number(x), J::Number(y)) => x.as_f64() == y.as_f64(),
+        (J::Array(x), J::Array(y)) => x.len() == y.len() && x.iter().zip(y.iter()).all(|(p, q)| json_eq(p, q)),
+        (J::Object(x), J::Object(y)) => x.len() == y.len() && x.iter().all(|(k, v)| y.get(k).map(|w| json_eq(v, w)).unwrap_or(false)),
+        _ => a == b,
+    }
+}
+
+fn json_to_builder_value(j: &J) -> JsonbBuilderValue {
+    match j {
+        J::Null => JsonbBuilderValue::Null,
+        J::Bool(b) => JsonbBuilderValue::Bool(*b),
+        J::Number(n) => JsonbBuilderValue::Number(n.as_f64().unwrap_or(0.0)),
+        J::String(s) => JsonbBuilderValue::String(s.clone()),
+        J::Array(a) => JsonbBuilderValue::Array(a.iter().map(json_to_builder_value).collect()),
+        J::Object(o) => JsonbBuilderValue::Object(o.iter().map(|(k, v)| (k.clone(), json_to_builder_value(v))).collect()),
+    }
+}
+
+pub fn json_to_jsonb(j: &J) -> Vec<u8> {
+    match j {
+        J::Null => JsonbBuilder::new_null().build(),
+        J::Bool(b) => JsonbBuilder::new_bool(*b).build(),
+        J::Number(n) => JsonbBuilder::new_number(n.as_f64().unwrap_or(0.0)).build(),
+        J::String(s) => JsonbBuilder::new_string(s.clone()).build(),
+        J::Array(a) => {
+            let mut b = JsonbBuilder::new_array();
+            for x in a {
+                b.push(json_to_builder_value(x));
+            }
+            b.build()
+        }
+        J::Object(o) => {
+            let mut b = JsonbBuilder::new_object();
+            for (k, v) in o {
+                b.set(k.clone(), json_to_builder_value(v));
+            }
+            b.build()
+        }
+    }
+}
+
+fn pow10(s: u32) -> i128 {
+    10i128.pow(s)
+}
+
+/// None = matches; Some(what) = "null" | "wrong_type" | "wrong_value"
+pub fn judge(exp: &Exp, got: &OV) -> Option<&'static str> {
+    let null_or_type = |got: &OV| if matches!(got, OV::Null) { "null" } else { "wrong_type" };
+    match exp {
+        Exp::Exact(e) => {
+            if ov_same(e, got) {
+                None
+            } else if std::mem::discriminant(e) == std::mem::discriminant(got) {
+                Some("wrong_value")
+            } else {
+                Some(null_or_type(got))
+            }
+        }
+        Exp::FloatAny(cands) => match got {
+            OV::Float(g) => {
+                if cands.iter().any(|c| f64_same(*c, *g)) {
+                    None
+                } else {
+                    Some("wrong_value")
+                }
+            }
+            o => Some(null_or_type(o)),
+        },
+        Exp::DecimalNum(d, s) => match got {
+            OV::Decimal(d2, s2) => {
+                let (s, s2) = (*s.max(&0) as u32, (*s2).max(0) as u32);
+                let m = s.max(s2);
+                if m > 30 {
+                    return Some("wrong_value");
+                }
+                if d.checked_mul(pow10(m - s)) == d2.checked_mul(pow10(m - s2)) {
+                    None
+                } else {
+                    Some("wrong_value")
+                }
+            }
+            OV::Float(f) => {
+                let want = (*d as f64) / (pow10((*s).max(0) as u32) as f64);
+                if *f == want {
+                    None
+                } else {
+                    Some("wrong_value")
+                }
+            }
+            o => Some(null_or_type(o)),
+        },
+        Exp::CharTrim(s) => match got {
+            OV::Text(t) => {
+                if t.trim_end_matches(' ') == s.as_str() {
+                    None
+                } else {
+                    Some("wrong_value")
+                }
+            }
+            o => Some(null_or_type(o)),
+        },
+        Exp::Json(j) => match got {
+            OV::Jsonb(b) => match jsonb_to_json(b) {
+                Ok(g) if json_eq(j, &g) => None,
+                _ => Some("wrong_value"),
+            },
+            o => Some(null_or_type(o)),
+        },
+        Exp::TsTzMicros(m) => match got {
+            OV::TimestampTz(g, _) => {
+                if g == m {
+                    None
+                } else {
+                    Some("wrong_value")
+                }
+            }
+            o => Some(null_or_type(o)),
+        },
+    }
+}
+
+// ---------------------------------------------------------------------------------------------
+// value rendering helpers
+
+pub fn lit_text(s: &str) -> String {
+    format!("'{}'", s.replace('\'', "''"))
+}
+pub fn lit_blob(b: &[u8]) -> String {
+    let mut s = String::with_capacity(b.len() * 2 + 3);
+    s.push_str("X'");
+    const H: &[u8; 16] = b"0123456789abcdef";
+    for x in b {
+        s.push(H[(x >> 4) as usize] as char);
+        s.push(H[(x & 15) as usize] as char);
+    }
+    s.push('\'');
+    s
+}
+/// float literal the lexer reads as a float (shortest round-trip form, always with '.' or exponent)
+pub fn lit_f64(f: f64) -> String {
+    format!("{:?}", f)
+}
+
+/// days since 1970-01-01 of a proleptic Gregorian date (Howard Hinnant's days_from_civil)
+pub fn days_from_civil(y: i64, m: i64, d: i64) -> i64 {
+    let y = if m <= 2 { y - 1 } else { y };
+    let era = if y >= 0 { y } else { y - 399 } / 400;
+    let yoe = y - era * 400;
+    let mp = (m + 9) % 12;
+    let doy = (153 * mp + 2) / 5 + d - 1;
+    let doe = yoe * 365 + yoe / 4 - yoe / 100 + doy;
+    era * 146097 + doe - 719468
+}
+
+fn short(s: &str, n: usize) -> String {
+    if s.len() <= n {
+        s.to_string()
+    } else {
+        let mut cut = n;
+        while !s.is_char_boundary(cut) {
+            cut -= 1;
+        }
+        format!("{}...<{} bytes total>", &s[..cut], s.len())
+    }
+}
+
+fn show_ov(v: &OV) -> String {
+    let s = match v {
+        OV::Text(t) => format!("Text(len={}, {:?})", t.len(), short(t, 80)),
+        OV::Blob(b) => format!("Blob(len={}, head={:02x?})", b.len(), &b[..b.len().min(24)]),
+        OV::Jsonb(b) => format!("Jsonb(len={}, json={})", b.len(), jsonb_to_json(b).map(|j| short(&j.to_string(), 120)).unwrap_or_else(|e| format!("<undecodable: {}>", e))),
+        OV::Vector(x) => format!("Vector(dim={}, head={:?})", x.len(), &x[..x.len().min(6)]),
+        OV::Float(f) => format!("Float({:?} bits={:#018x})", f, f.to_bits()),
+        OV::ToastPointer(b) => format!("ToastPointer({} bytes)", b.len()),
+        other => format!("{:?}", other),
+    };
+    short(&s, 300)
+}
+fn show_exp(e: &Exp) -> String {
+    match e {
+        Exp::Exact(v) => show_ov(v),
+        Exp::FloatAny(c) => format!("Float one of {:?}", c),
+        Exp::DecimalNum(d, s) => format!("decimal {}e-{}", d, s),
+        Exp::CharTrim(s) => format!("Text equal to {:?} after trimming trailing spaces", short(s, 80)),
+        Exp::Json(j) => format!("JSON {}", short(&j.to_string(), 160)),
+        Exp::TsTzMicros(m) => format!("TimestampTz({}, any offset)", m),
+    }
+}
+
+/// stable class of an error message: leading words up to the first quoted/numeric detail
+pub fn err_class(e: &str) -> String {
+    let cut = e.find(|c: char| c == '\'' || c == '"' || c == '`' || c.is_ascii_digit()).unwrap_or(e.len());
+    let head = &e[..cut];
+    let words: Vec<String> = head.split(|c: char| !c.is_ascii_alphabetic()).filter(|w| !w.is_empty()).take(7).map(|w| w.to_lowercase()).collect();
+    if words.is_empty() {
+        "error".into()
+    } else {
+        words.join("_")
+    }
+}
+
+// ---------------------------------------------------------------------------------------------
+// cases
+
+#[derive(Clone, Debug)]
+pub struct Case {
+    pub class: String,
+    pub lit: Option<String>,
+    pub param: Option<OV>,
+    pub exp: Exp,
+    /// multi-MiB value: only INSERT paths, no "update over"
+    pub huge: bool,
+    /// additionally: after the value was inserted and read, it is overwritten by UPDATE with a small value
+    pub then_overwritten: bool,
+}
+
+fn case(class: &str, lit: Option<String>, param: Option<OV>, exp: Exp) -> Case {
+    Case { class: class.to_string(), lit, param, exp, huge: false, then_overwritten: false }
+}
+
+#[derive(Clone, Debug)]
+pub struct Plan {
+    /// type name used in signatures
+    pub ty: &'static str,
+    /// SQL column type
+    pub col: String,
+    /// record-level data type (for the record round-trip read path)
+    pub rdt: RDT,
+    pub cases: Vec<Case>,
+    /// no "update over another value" variants in this plan (the other value would blur the attribution)
+    pub no_update_over: bool,
+}
+
+const SIZES: &[usize] = &[0, 1, 999, 1000, 1001, 4000, 4001, 16383, 16384, 16385, 70000];
+
+fn storage_class(n: usize) -> &'static str {
+    if n <= 1000 {
+        "inline"
+    } else if n <= 4000 {
+        "toast1"
+    } else if n < (1 << 20) {
+        "toastn"
+    } else {
+        "mib"
+    }
+}
+
+const UNI: &[&str] = &["é", "€", "😀", "e\u{301}", "\u{200d}", "𝄞", "日本語", "שלום", "a\u{308}\u{323}", "\u{1F468}\u{200D}\u{1F469}\u{200D}\u{1F467}", "ß", "\u{FFFD}", "\u{10FFFF}"];
+const QUO: &[&str] = &["'", "''", "\\", "\\'", "\"", "%", "_", "--", "/*", "*/", ";", "\n", "\t", "\r\n", "\\n", "\\0", "\u{1}", "\u{7f}", "$1", "?", "x'", "')"];
+
+/// text of exactly `n` bytes
+pub fn gen_text(rng: &mut Rng, kind: &str, n: usize) -> String {
+    let mut s = String::with_capacity(n);
+    match kind {
+        "ascii" => {
+            while s.len() < n {
+                s.push((b' ' + rng.below(95) as u8) as char);
+            }
+            // avoid the single quote so that "ascii" isolates size effects from quoting effects
+            s = s.replace('\'', "q");
+        }
+        "unicode" => {
+            while s.len() + 30 <= n {
+                { let p: &&str = rng.pick(UNI); s.push_str(p); }
+                if rng.chance(1, 3) {
+                    s.push((b'a' + rng.below(26) as u8) as char);
+                }
+            }
+        }
+        _ => {
+            while s.len() + 4 <= n {
+                { let p: &&str = rng.pick(QUO); s.push_str(p); }
+                if rng.chance(1, 2) {
+                    s.push((b'a' + rng.below(26) as u8) as char);
+                }
+            }
+        }
+    }
+    while s.len() < n {
+        s.push('x');
+    }
+    debug_assert_eq!(s.len(), n);
+    s
+}
+
+fn text_cases(rng: &mut Rng, kind: &str, sizes: &[usize], char_col: bool) -> Vec<Case> {
+    let mut out = vec![];
+    for &n in sizes {
+        let s = gen_text(rng, kind, n);
+        let class = format!("{}_{}_{}", kind, storage_class(n), n);
+        let exp = if char_col { Exp::CharTrim(s.trim_end_matches(' ').to_string()) } else { Exp::Exact(OV::Text(s.clone())) };
+        let s = if char_col { s.trim_end_matches(' ').to_string() } else { s };
+        out.push(case(&class, Some(lit_text(&s)), Some(OV::Text(s)), exp));
+    }
+    out
+}
+
+fn blob_bytes(rng: &mut Rng, kind: &str, n: usize) -> Vec<u8> {
+    match kind {
+        "bin" => {
+            let mut b = rng.bytes(n);
+            if n > 0 {
+                b[n / 2] = 0xC0; // never valid UTF-8
+            }
+            b
+        }
+        "utf8" => gen_text(rng, if n % 2 == 0 { "ascii" } else { "unicode" }, n).into_bytes(),
+        "zeros" => vec![0u8; n],
+        _ => vec![0xFFu8; n],
+    }
+}
+
+fn blob_cases(rng: &mut Rng, kind: &str, sizes: &[usize]) -> Vec<Case> {
+    sizes
+        .iter()
+        .map(|&n| {
+            let b = blob_bytes(rng, kind, n);
+            case(&format!("{}_{}_{}", kind, storage_class(n), n), Some(lit_blob(&b)), Some(OV::Blob(b.clone())), Exp::Exact(OV::Blob(b)))
+        })
+        .collect()
+}
+
+fn int_cases(rng: &mut Rng, lo: i64, hi: i64, tag: &str) -> Vec<Case> {
+    let mut vals: Vec<(String, i64)> = vec![(format!("{}_min", tag), lo), (format!("{}_min_plus1", tag), lo + 1), ("minus1".into(), -1), ("zero".into(), 0), ("one".into(), 1), (format!("{}_max_minus1", tag), hi - 1), (format!("{}_max", tag), hi)];
+    if tag == "i64" {
+        vals.push(("two53_plus1".into(), (1i64 << 53) + 1));
+        vals.push(("neg_two53_minus1".into(), -(1i64 << 53) - 1));
+    }
+    for _ in 0..3 {
+        vals.push(("random".into(), rng.range(lo, hi)));
+    }
+    vals.into_iter().map(|(c, v)| case(&c, Some(v.to_string()), Some(OV::Int(v)), Exp::Exact(OV::Int(v)))).collect()
+}
+
+fn float_specials() -> Vec<(&'static str, f64)> {
+    vec![("nan", f64::NAN), ("pos_inf", f64::INFINITY), ("neg_inf", f64::NEG_INFINITY)]
+}
+
+fn double_cases(rng: &mut Rng) -> Vec<Case> {
+    let mut v: Vec<(String, f64)> = vec![
+        ("zero".into(), 0.0),
+        ("neg_zero".into(), -0.0),
+        ("one".into(), 1.0),
+        ("tenth".into(), 0.1),
+        ("f64_max".into(), f64::MAX),
+        ("f64_min".into(), f64::MIN),
+        ("min_positive".into(), f64::MIN_POSITIVE),
+        ("subnormal_min".into(), 5e-324),
+        ("subnormal".into(), 1.2345e-310),
+        ("e21".into(), 1e21),
+        ("e_minus7".into(), 1.5e-7),
+        ("two53_plus2".into(), 9007199254740994.0),
+        ("seventeen_digits".into(), 0.30000000000000004),
+    ];
+    for _ in 0..4 {
+        let f = f64::from_bits(rng.next());
+        if f.is_finite() {
+            v.push(("random_bits".into(), f));
+        }
+    }
+    let mut out: Vec<Case> = v.into_iter().map(|(c, f)| case(&c, Some(lit_f64(f)), Some(OV::Float(f)), Exp::Exact(OV::Float(f)))).collect();
+    for (c, f) in float_specials() {
+        // no literal syntax exists for NaN / infinities: parameter path only
+        out.push(case(c, None, Some(OV::Float(f)), Exp::Exact(OV::Float(f))));
+    }
+    // an integer literal written into a floating column must read back as that number
+    out.push(case("int_literal", Some("5".into()), None, Exp::Exact(OV::Float(5.0))));
+    out
+}
+
+fn real_cases(rng: &mut Rng) -> Vec<Case> {
+    // only values within the f32 range; expectation = the f64 written or its nearest f32
+    let mut v: Vec<(String, f64)> = vec![
+        ("zero".into(), 0.0),
+        ("neg_zero".into(), -0.0),
+        ("one_and_half".into(), 1.5),
+        ("tenth".into(), 0.1),
+        ("f32_max".into(), f32::MAX as f64),
+        ("f32_min".into(), f32::MIN as f64),
+        ("f32_min_positive".into(), f32::MIN_POSITIVE as f64),
+        ("f32_subnormal_min".into(), f32::from_bits(1) as f64),
+        ("f32_exact".into(), 16777217.0f32 as f64),
+        ("needs_rounding".into(), 16777217.0),
+    ];
+    for _ in 0..4 {
+        let f = f32::from_bits(rng.next() as u32);
+        if f.is_finite() {
+            v.push(("random_f32_bits".into(), f as f64));
+        }
+    }
+    let mut out: Vec<Case> = v.into_iter().map(|(c, f)| case(&c, Some(lit_f64(f)), Some(OV::Float(f)), Exp::FloatAny(vec![f, (f as f32) as f64]))).collect();
+    for (c, f) in float_specials() {
+        out.push(case(c, None, Some(OV::Float(f)), Exp::FloatAny(vec![f])));
+    }
+    out.push(case("int_literal", Some("5".into()), None, Exp::FloatAny(vec![5.0])));
+    out
+}
+
+fn decimal_cases(rng: &mut Rng) -> Vec<Case> {
+    // values exactly representable in binary floating point and in DECIMAL(20,4)
+    let mut v: Vec<(String, i128, i16)> = vec![("zero".into(), 0, 0), ("one".into(), 1, 0), ("minus_one".into(), -1, 0), ("half".into(), 5, 1), ("quarter_frac".into(), 12325, 2), ("neg_sixteenth".into(), -999990625, 4), ("two53".into(), 1i128 << 53, 0), ("small_frac".into(), 625, 4)];
+    for _ in 0..3 {
+        let whole = rng.range(-1_000_000, 1_000_000) as i128;
+        let q = rng.below(16) as i128; // sixteenths: k/16 has at most 4 decimals
+        let sign: i128 = if whole < 0 { -1 } else { 1 };
+        v.push(("random_sixteenths".into(), whole * 10000 + sign * q * 625, 4));
+    }
+    v.into_iter()
+        .map(|(c, d, s)| {
+            let lit = {
+                let neg = d < 0;
+                let a = d.unsigned_abs();
+                let p = 10u128.pow(s as u32);
+                // always a decimal point, so that the lexer yields a float/decimal literal
+                format!("{}{}.{:0>w$}", if neg { "-" } else { "" }, a / p, a % p, w = (s as usize).max(1))
+            };
+            case(&c, Some(lit), Some(OV::Decimal(d, s)), Exp::DecimalNum(d, s))
+        })
+        .chain(std::iter::once(case("int_literal", Some("5".into()), None, Exp::DecimalNum(5, 0))))
+        .collect()
+}
+
+fn date_civil(rng: &mut Rng) -> Vec<(String, (i64, i64, i64))> {
+    let mut v: Vec<(String, (i64, i64, i64))> = vec![
+        ("year1_first_day".into(), (1, 1, 1)),
+        ("year1_last_day".into(), (1, 12, 31)),
+        ("year9999_last_day".into(), (9999, 12, 31)),
+        ("pre1970_last_day".into(), (1969, 12, 31)),
+        ("epoch".into(), (1970, 1, 1)),
+        ("leap_day_2000".into(), (2000, 2, 29)),
+        ("century_non_leap_1900".into(), (1900, 3, 1)),
+        ("gregorian_gap_1582".into(), (1582, 10, 10)),
+        ("y2038".into(), (2038, 1, 19)),
+    ];
+    for _ in 0..3 {
+        let y = rng.range(1, 9999);
+        let m = rng.range(1, 12);
+        let d = rng.range(1, 28);
+        v.push((if y < 1970 { "random_pre1970".into() } else { "random".into() }, (y, m, d)));
+    }
+    v
+}
+
+fn date_cases(rng: &mut Rng) -> Vec<Case> {
+    date_civil(rng)
+        .into_iter()
+        .map(|(c, (y, m, d))| {
+            let days = days_from_civil(y, m, d) as i32;
+            case(&c, Some(format!("'{:04}-{:02}-{:02}'", y, m, d)), Some(OV::Date(days)), Exp::Exact(OV::Date(days)))
+        })
+        .collect()
+}
+
+fn times(rng: &mut Rng) -> Vec<(String, (i64, i64, i64, i64))> {
+    let mut v: Vec<(String, (i64, i64, i64, i64))> = vec![("midnight".into(), (0, 0, 0, 0)), ("last_second".into(), (23, 59, 59, 0)), ("last_microsecond".into(), (23, 59, 59, 999_999)), ("one_microsecond".into(), (0, 0, 0, 1)), ("half_second".into(), (12, 34, 56, 500_000))];
+    for _ in 0..2 {
+        v.push(("random".into(), (rng.range(0, 23), rng.range(0, 59), rng.range(0, 59), rng.range(0, 999_999))));
+    }
+    v
+}
+fn time_str(h: i64, mi: i64, s: i64, us: i64) -> String {
+    if us == 0 {
+        format!("{:02}:{:02}:{:02}", h, mi, s)
+    } else {
+        format!("{:02}:{:02}:{:02}.{:06}", h, mi, s, us)
+    }
+}
+fn time_cases(rng: &mut Rng) -> Vec<Case> {
+    times(rng)
+        .into_iter()
+        .map(|(c, (h, mi, s, us))| {
+            let micros = ((h * 60 + mi) * 60 + s) * 1_000_000 + us;
+            case(&c, Some(format!("'{}'", time_str(h, mi, s, us))), Some(OV::Time(micros)), Exp::Exact(OV::Time(micros)))
+        })
+        .collect()
+}
+
+fn timestamp_cases(rng: &mut Rng, tz: bool) -> Vec<Case> {
+    let ds = date_civil(rng);
+    let ts = times(rng);
+    let mut out = vec![];
+    for (i, (dc, (y, m, d))) in ds.iter().enumerate() {
+        let (tc, (h, mi, s, us)) = &ts[i % ts.len()];
+        let micros = days_from_civil(*y, *m, *d) * 86_400_000_000 + ((h * 60 + mi) * 60 + s) * 1_000_000 + us;
+        let sep = if i % 2 == 0 { " " } else { "T" };
+        let lit = format!("'{:04}-{:02}-{:02}{}{}'", y, m, d, sep, time_str(*h, *mi, *s, *us));
+        let class = format!("{}_{}", dc, tc);
+        if tz {
+            // literal without offset: the assumed offset is undocumented, so only the instant's micros are judged
+            out.push(case(&class, Some(lit), None, Exp::TsTzMicros(micros)));
+            let off = *rng.pick(&[0i32, 3600, -18000, 19800, 50400, -43200]);
+            out.push(case(&format!("{}_offset", class), None, Some(OV::TimestampTz(micros, off)), Exp::Exact(OV::TimestampTz(micros, off))));
+        } else {
+            out.push(case(&class, Some(lit), Some(OV::Timestamp(micros)), Exp::Exact(OV::Timestamp(micros))));
+        }
+    }
+    out
+}
+
+fn interval_cases(rng: &mut Rng) -> Vec<Case> {
+    let mut out = vec![];
+    // (class, literal, micros, days, months)
+    let fixed: Vec<(&str, &str, i64, i32, i32)> = vec![
+        ("pg_units", "1 year 2 months 3 days 4 hours 5 minutes 6 seconds", ((4 * 60 + 5) * 60 + 6) * 1_000_000, 3, 14),
+        ("pg_days_only", "40 days", 0, 40, 0),
+        ("pg_zero", "0 seconds", 0, 0, 0),
+        ("iso8601", "P1Y2M3DT4H5M6S", ((4 * 60 + 5) * 60 + 6) * 1_000_000, 3, 14),
+        ("iso8601_weeks", "P2W", 0, 14, 0),
+        ("pg_microseconds", "7 microseconds", 7, 0, 0),
+    ];
+    for (c, l, us, d, m) in fixed {
+        out.push(case(c, Some(format!("'{}'", l)), Some(OV::Interval(us, d, m)), Exp::Exact(OV::Interval(us, d, m))));
+    }
+    // extremes have no literal form that is documented: parameter path only
+    for (c, us, d, m) in [("extreme_min", i64::MIN, i32::MIN, i32::MIN), ("extreme_max", i64::MAX, i32::MAX, i32::MAX), ("negative", -1i64, -1i32, -1i32)] {
+        out.push(case(c, None, Some(OV::Interval(us, d, m)), Exp::Exact(OV::Interval(us, d, m))));
+    }
+    for _ in 0..2 {
+        let (us, d, m) = (rng.next() as i64, rng.next() as i32, rng.next() as i32);
+        out.push(case("random_bits", None, Some(OV::Interval(us, d, m)), Exp::Exact(OV::Interval(us, d, m))));
+    }
+    out
+}
+
+fn uuid_cases(rng: &mut Rng) -> Vec<Case> {
+    let mut v: Vec<(String, [u8; 16])> = vec![("nil".into(), [0; 16]), ("all_ff".into(), [0xff; 16]), ("fe_first".into(), [0xfe; 16])];
+    for _ in 0..3 {
+        let mut u = [0u8; 16];
+        u.copy_from_slice(&rng.bytes(16));
+        v.push(("random".into(), u));
+    }
+    let mut out = vec![];
+    for (i, (c, u)) in v.into_iter().enumerate() {
+        let h: String = u.iter().map(|b| format!("{:02x}", b)).collect();
+        let mut s = format!("{}-{}-{}-{}-{}", &h[0..8], &h[8..12], &h[12..16], &h[16..20], &h[20..32]);
+        if i % 2 == 1 {
+            s = s.to_uppercase();
+        }
+        out.push(case(&c, Some(format!("'{}'", s)), Some(OV::Uuid(u)), Exp::Exact(OV::Uuid(u))));
+    }
+    out
+}
+
+fn gen_json(rng: &mut Rng, depth: u32) -> J {
+    let k = if depth == 0 { rng.below(5) } else { rng.below(7) };
+    match k {
+        0 => J::Null,
+        1 => J::Bool(rng.chance(1, 2)),
+        2 => {
+            if rng.chance(1, 2) {
+                json!(rng.range(-1_000_000, 1_000_000))
+            } else {
+                let f = f64::from_bits(rng.next());
+                if f.is_finite() {
+                    json!(f)
+                } else {
+                    json!(0.5)
+                }
+            }
+        }
+        3 | 4 => {
+            let n = rng.usize(0, 12);
+            let kind = *rng.pick(&["ascii", "unicode", "quotes"]);
+            J::String(json_safe(&gen_text(rng, kind, n)))
+        }
+        5 => J::Array((0..rng.usize(0, 4)).map(|_| gen_json(rng, depth - 1)).collect()),
+        _ => {
+            let mut m = serde_json::Map::new();
+            for i in 0..rng.usize(0, 4) {
+                let kind = *rng.pick(&["ascii", "unicode"]);
+                let klen = rng.usize(0, 6);
+                let key = format!("{}{}", json_safe(&gen_text(rng, kind, klen)), i);
+                m.insert(key, gen_json(rng, depth - 1));
+            }
+            J::Object(m)
+        }
+    }
+}
+/// strings whose JSON text form uses only the escapes RFC 8259 requires every parser to accept in the short forms
+/// \" \\ \n \r \t (serde_json writes \b, \f and \u00XX for other control characters: kept out of the generic
+/// generator and probed by dedicated classes)
+fn json_safe(s: &str) -> String {
+    s.chars().filter(|c| !c.is_control() || matches!(c, '\n' | '\r' | '\t')).collect()
+}
+
+fn jsonb_cases(rng: &mut Rng, thorough: bool) -> Vec<Case> {
+    let mut docs: Vec<(String, J)> = vec![
+        ("null".into(), J::Null),
+        ("true".into(), json!(true)),
+        ("number_int".into(), json!(42)),
+        ("number_neg_frac".into(), json!(-0.125)),
+        ("number_f64_max".into(), json!(f64::MAX)),
+        ("number_two53_plus2".into(), json!(9007199254740994i64)),
+        ("string_empty".into(), json!("")),
+        ("string_unicode".into(), json!("日本語 😀 e\u{301}")),
+        ("string_structural_chars".into(), json!("a,b:c{d}[e]\"f\\g'h")),
+        ("empty_object".into(), json!({})),
+        ("empty_array".into(), json!([])),
+        ("flat_object".into(), json!({"name": "Alice", "age": 30, "ok": true, "none": null})),
+        ("nested".into(), json!({"a": {"b": {"c": [1, 2, {"d": [[], {}]}]}}, "e": [[1, [2, [3]]]]})),
+        ("object_key_empty".into(), json!({"": 1})),
+        ("object_key_unicode_and_quote".into(), json!({"ключ'\"": "v", "k,2:": [true]})),
+        ("string_escape_bs_ff".into(), json!("a\u{8}b\u{c}c")),
+        ("string_escape_u00xx".into(), json!("a\u{1}b\u{1f}c")),
+        ("whitespace_string".into(), json!(" \t lead and trail \n ")),
+    ];
+    // documents above the TOAST threshold
+    let big_arr: Vec<J> = (0..400).map(|i| json!(i * 7)).collect();
+    docs.push(("big_array_toast".into(), J::Array(big_arr)));
+    docs.push(("big_string_toast_5000".into(), J::String(gen_text(rng, "ascii", 5000))));
+    if thorough {
+        docs.push(("big_string_toast_70000".into(), J::String(gen_text(rng, "unicode", 70000))));
+        let mut m = serde_json::Map::new();
+        for i in 0..300 {
+            m.insert(format!("key{}", i), json!({"i": i, "s": gen_text(rng, "ascii", 10)}));
+        }
+        docs.push(("big_object_toast".into(), J::Object(m)));
+    }
+    for _ in 0..(if thorough { 12 } else { 5 }) {
+        docs.push(("random_doc".into(), gen_json(rng, 3)));
+    }
+    docs.into_iter().map(|(c, j)| case(&c, Some(lit_text(&serde_json::to_string(&j).unwrap())), Some(OV::Jsonb(json_to_jsonb(&j))), Exp::Json(j))).collect()
+}
+
+fn vector_cases(rng: &mut Rng, dim: usize) -> Vec<Case> {
+    let mut out = vec![];
+    let specials = [0.0f32, -0.0, 1.0, -1.5, f32::MAX, f32::MIN, f32::MIN_POSITIVE, f32::from_bits(1), 0.1, 16777216.0, 1e-10, 3.4e38];
+    let mk = |class: &str, v: Vec<f32>, lit: bool| {
+        let l = format!("'[{}]'", v.iter().map(|f| format!("{:?}", f)).collect::<Vec<_>>().join(", "));
+        case(&format!("{}_dim{}", class, dim), if lit { Some(l) } else { None }, Some(OV::Vector(v.clone())), Exp::Exact(OV::Vector(v)))
+    };
+    out.push(mk("zeros", vec![0.0; dim], true));
+    out.push(mk("boundary_values", (0..dim).map(|i| specials[i % specials.len()]).collect(), true));
+    out.push(mk("random_bits", (0..dim).map(|_| { let f = f32::from_bits(rng.next() as u32); if f.is_finite() { f } else { 1.0 } }).collect(), true));
+    out.push(mk("random_unit", (0..dim).map(|_| (rng.f64() * 2.0 - 1.0) as f32).collect(), true));
+    // NaN / infinities: no documented literal form, parameter path only
+    out.push(mk("nan_inf", (0..dim).map(|i| [f32::NAN, f32::INFINITY, f32::NEG_INFINITY, 1.0][i % 4]).collect(), false));
+    out
+}
+
+fn inet_cases(rng: &mut Rng) -> Vec<Case> {
+    // no SQL literal form exists for INET (a string literal is taken as text): parameter path only
+    let mut out = vec![];
+    for (c, ip) in [("v4_zero", [0u8; 4]), ("v4_broadcast", [255; 4]), ("v4_private", [192, 168, 0, 1])] {
+        out.push(case(c, None, Some(OV::Inet4(ip)), Exp::Exact(OV::Inet4(ip))));
+    }
+    let mut lo = [0u8; 16];
+    lo[15] = 1;
+    let mut r = [0u8; 16];
+    r.copy_from_slice(&rng.bytes(16));
+    let mut mapped = [0u8; 16];
+    mapped[10] = 0xff;
+    mapped[11] = 0xff;
+    mapped[12..].copy_from_slice(&[10, 0, 0, 1]);
+    for (c, ip) in [("v6_unspecified", [0u8; 16]), ("v6_loopback", lo), ("v6_all_ff", [0xff; 16]), ("v6_random", r), ("v6_v4mapped", mapped)] {
+        out.push(case(c, None, Some(OV::Inet6(ip)), Exp::Exact(OV::Inet6(ip))));
+    }
+    out
+}
+
+fn macaddr_cases(rng: &mut Rng) -> Vec<Case> {
+    let mut r = [0u8; 6];
+    r.copy_from_slice(&rng.bytes(6));
+    [("zero", [0u8; 6]), ("broadcast", [0xff; 6]), ("random", r)].into_iter().map(|(c, m)| case(c, None, Some(OV::MacAddr(m)), Exp::Exact(OV::MacAddr(m)))).collect()
+}
+
+fn geo_floats(rng: &mut Rng) -> Vec<(&'static str, Vec<f64>)> {
+    vec![
+        ("zeros", vec![0.0; 5]),
+        ("neg_zero", vec![-0.0; 5]),
+        ("ordinary", vec![1.5, -2.25, 3.0, 4.75, 0.1]),
+        ("extremes", vec![f64::MAX, f64::MIN, f64::MIN_POSITIVE, 5e-324, -5e-324]),
+        ("nan_inf", vec![f64::NAN, f64::INFINITY, f64::NEG_INFINITY, f64::NAN, f64::INFINITY]),
+        ("random", (0..5).map(|_| (rng.f64() - 0.5) * 1e6).collect()),
+    ]
+}
+fn point_cases(rng: &mut Rng) -> Vec<Case> {
+    geo_floats(rng).into_iter().map(|(c, f)| case(c, None, Some(OV::Point(f[0], f[1])), Exp::Exact(OV::Point(f[0], f[1])))).collect()
+}
+fn box_cases(rng: &mut Rng) -> Vec<Case> {
+    geo_floats(rng).into_iter().map(|(c, f)| case(c, None, Some(OV::Box((f[0], f[1]), (f[2], f[3]))), Exp::Exact(OV::Box((f[0], f[1]), (f[2], f[3]))))).collect()
+}
+fn circle_cases(rng: &mut Rng) -> Vec<Case> {
+    geo_floats(rng).into_iter().map(|(c, f)| case(c, None, Some(OV::Circle((f[0], f[1]), f[4])), Exp::Exact(OV::Circle((f[0], f[1]), f[4])))).collect()
+}
+
+fn random_sizes(rng: &mut Rng, n: usize, max: usize) -> Vec<usize> {
+    (0..n)
+        .map(|_| match rng.below(4) {
+            0 => rng.usize(2, 998),
+            1 => rng.usize(1002, 3999),
+            2 => rng.usize(4002, 16000),
+            _ => rng.usize(16386, max),
+        })
+        .collect()
+}
+
+pub fn build_plans(rng: &mut Rng, quick: bool, miri: bool) -> Vec<Plan> {
+    let thorough = !quick;
+    let mut plans: Vec<Plan> = vec![];
+    let mut add = |ty: &'static str, col: &str, rdt: RDT, cases: Vec<Case>| plans.push(Plan { ty, col: col.to_string(), rdt, cases, no_update_over: false });
+    let rounds = if quick { 1 } else { 3 };
+    for round in 0..rounds {
+        add("BOOLEAN", "BOOLEAN", RDT::Bool, vec![case("true", Some("TRUE".into()), Some(OV::Bool(true)), Exp::Exact(OV::Bool(true))), case("false", Some("FALSE".into()), Some(OV::Bool(false)), Exp::Exact(OV::Bool(false)))]);
+        add("SMALLINT", "SMALLINT", RDT::Int2, int_cases(rng, i16::MIN as i64, i16::MAX as i64, "i16"));
+        add("INT", "INT", RDT::Int4, int_cases(rng, i32::MIN as i64, i32::MAX as i64, "i32"));
+        add("BIGINT", "BIGINT", RDT::Int8, int_cases(rng, i64::MIN, i64::MAX, "i64"));
+        add("REAL", "REAL", RDT::Float4, real_cases(rng));
+        add("DOUBLE", "DOUBLE PRECISION", RDT::Float8, double_cases(rng));
+        add("DECIMAL", "DECIMAL(20,4)", RDT::Decimal, decimal_cases(rng));
+        add("DATE", "DATE", RDT::Date, date_cases(rng));
+        add("TIME", "TIME", RDT::Time, time_cases(rng));
+        add("TIMESTAMP", "TIMESTAMP", RDT::Timestamp, timestamp_cases(rng, false));
+        add("TIMESTAMPTZ", "TIMESTAMPTZ", RDT::TimestampTz, timestamp_cases(rng, true));
+        add("INTERVAL", "INTERVAL", RDT::Interval, interval_cases(rng));
+        add("UUID", "UUID", RDT::Uuid, uuid_cases(rng));
+        add("JSONB", "JSONB", RDT::Jsonb, jsonb_cases(rng, thorough));
+        add("INET", "INET", RDT::Inet6, inet_cases(rng));
+        add("MACADDR", "MACADDR", RDT::MacAddr, macaddr_cases(rng));
+        add("POINT", "POINT", RDT::Point, point_cases(rng));
+        add("BOX", "BOX", RDT::Box, box_cases(rng));
+        add("CIRCLE", "CIRCLE", RDT::Circle, circle_cases(rng));
+        let dims: &[usize] = if miri {
+            &[3]
+        } else if quick {
+            &[1, 3, 128, 300]
+        } else {
+            &[1, 2, 3, 16, 128, 250, 251, 768, 1536]
+        };
+        for &d in dims {
+            add("VECTOR", &format!("VECTOR({})", d), RDT::Vector, vector_cases(rng, d));
+        }
+        // CHAR(n): values of at most n bytes, no trailing spaces
+        for n in [1usize, 8, 64] {
+            let mut cs = vec![];
+            for kind in ["ascii", "unicode", "quotes"] {
+                let sizes: Vec<usize> = if n == 1 { vec![0, 1] } else { vec![0, 1, n / 2, n - 1, n] };
+                cs.extend(text_cases(rng, kind, &sizes, true));
+            }
+            add("CHAR", &format!("CHAR({})", n), RDT::Char, cs);
+        }
+        // VARCHAR(n), lengths in bytes up to exactly n
+        {
+            let mut cs = vec![];
+            for kind in ["ascii", "unicode"] {
+                cs.extend(text_cases(rng, kind, &[0, 1, 9, 10], false));
+            }
+            add("VARCHAR", "VARCHAR(10)", RDT::Varchar, cs);
+            let sizes: Vec<usize> = if miri { vec![0, 1, 1001] } else { SIZES.iter().copied().chain(random_sizes(rng, 3, 69_000)).collect() };
+            for kind in ["ascii", "unicode"] {
+                add("VARCHAR", "VARCHAR(70000)", RDT::Varchar, text_cases(rng, kind, &sizes, false));
+            }
+        }
+        let extra = if quick { 3 } else { 8 };
+        for kind in ["ascii", "unicode", "quotes"] {
+            let sizes: Vec<usize> = if miri { vec![0, 1, 1001] } else { SIZES.iter().copied().chain(random_sizes(rng, extra, 200_000)).collect() };
+            add("TEXT", "TEXT", RDT::Text, text_cases(rng, kind, &sizes, false));
+        }
+        for kind in ["bin", "utf8", "zeros", "ones"] {
+            let sizes: Vec<usize> = if miri {
+                vec![0, 1, 17, 1001]
+            } else if kind == "bin" || kind == "utf8" {
+                SIZES.iter().copied().chain(random_sizes(rng, extra, 200_000)).collect()
+            } else {
+                vec![1, 17, 1000, 1001, 4001]
+            };
+            let cs = blob_cases(rng, kind, &sizes);
+            add("BLOB", "BLOB", RDT::Blob, cs);
+        }
+        if round == 0 {
+            // a 17-byte value starting with 0xFE has the shape of an internal TOAST pointer (marker, size, chunk id);
+            // own database, so that whatever it does to the table is attributed to it
+            let mut b = rng.bytes(17);
+            b[0] = 0xFE;
+            b[8] |= 0x80; // as a "pointer" it would announce more than 2^63 bytes
+            let mut fe = case("bin_inline_17_fe_first", Some(lit_blob(&b)), Some(OV::Blob(b.clone())), Exp::Exact(OV::Blob(b)));
+            fe.then_overwritten = true;
+            let mut plain = rng.bytes(17);
+            plain[0] = 0x7E;
+            let plain = case("bin_inline_17", Some(lit_blob(&plain)), Some(OV::Blob(plain.clone())), Exp::Exact(OV::Blob(plain)));
+            add("BLOB", "BLOB", RDT::Blob, vec![plain, fe]);
+        }
+        // multi-MiB values: a small stratum
+        if !miri && (round == 0) {
+            let n_huge = if quick { 1 } else { 3 };
+            for i in 0..n_huge {
+                let n = rng.usize(2 << 20, if quick { (2 << 20) + 4096 } else { 5 << 20 });
+                let kind = ["unicode", "ascii", "quotes"][i % 3];
+                let s = gen_text(rng, kind, n);
+                let mut c = case(&format!("{}_mib_{}MiB", kind, n >> 20), Some(lit_text(&s)), Some(OV::Text(s.clone())), Exp::Exact(OV::Text(s)));
+                c.huge = true;
+                add("TEXT", "TEXT", RDT::Text, vec![c]);
+                let n = rng.usize(2 << 20, if quick { (2 << 20) + 4096 } else { 5 << 20 });
+                let bk = ["bin", "utf8", "bin"][i % 3];
+                let b = blob_bytes(rng, bk, n);
+                let mut c = case(&format!("{}_mib_{}MiB", bk, n >> 20), Some(lit_blob(&b)), Some(OV::Blob(b.clone())), Exp::Exact(OV::Blob(b)));
+                c.huge = true;
+                add("BLOB", "BLOB", RDT::Blob, vec![c]);
+            }
+        }
+    }
+    for p in plans.iter_mut() {
+        if p.cases.iter().any(|c| c.then_overwritten) {
+            p.no_update_over = true;
+        }
+    }
+    plans
+}
+
+
+// ---------------------------------------------------------------------------------------------
+// event sink: the TurDB calls run on a worker thread so that a call that never returns becomes a recorded
+// violation (`hang`) instead of a stuck run
+
+pub enum Ev {
+    Eval,
+    Count(String, u64),
+    Nontrivial(u64),
+    Sample(J),
+    Violation(String, String, J),
+    Inconclusive(String),
+    /// what the worker is about to do (signature fragment used if it never comes back)
+    Current(String, J),
+    Tally(String),
+    /// watchdog limit (seconds) for the calls that follow; 0 = back to the default
+    Limit(u64),
+    Done,
+}
+
+#[derive(Clone)]
+pub struct Sink(pub std::sync::mpsc::Sender<Ev>);
+
+impl Sink {
+    pub fn eval(&self) {
+        let _ = self.0.send(Ev::Eval);
+    }
+    pub fn count(&self, k: &str, n: u64) {
+        let _ = self.0.send(Ev::Count(k.to_string(), n));
+    }
+    pub fn nontrivial(&self, h: u64) {
+        let _ = self.0.send(Ev::Nontrivial(h));
+    }
+    pub fn sample(&self, j: J) {
+        let _ = self.0.send(Ev::Sample(j));
+    }
+    pub fn violation(&self, assertion: &str, sig: &str, detail: J) {
+        let _ = self.0.send(Ev::Violation(assertion.to_string(), sig.to_string(), detail));
+    }
+    pub fn inconclusive(&self, r: &str) {
+        let _ = self.0.send(Ev::Inconclusive(r.to_string()));
+    }
+    pub fn current(&self, frag: String, detail: J) {
+        let _ = self.0.send(Ev::Current(frag, detail));
+    }
+    pub fn tally(&self, k: String) {
+        let _ = self.0.send(Ev::Tally(k));
+    }
+    pub fn limit(&self, secs: u64) {
+        let _ = self.0.send(Ev::Limit(secs));
+    }
+    pub fn done(&self) {
+        let _ = self.0.send(Ev::Done);
+    }
+}
+
+/// apply the worker's events to `ctx` until it is done; Err((fragment, detail)) if no event arrived for `limit`
+pub fn pump(ctx: &mut Ctx, rx: &std::sync::mpsc::Receiver<Ev>, limit: std::time::Duration, tally: &mut BTreeMap<String, u64>) -> Result<(), (String, J)> {
+    let mut cur: (String, J) = ("start".to_string(), J::Null);
+    let debug = std::env::var("TV_DEBUG").is_ok();
+    let mut cur_limit = limit;
+    loop {
+        match rx.recv_timeout(cur_limit) {
+            Ok(Ev::Eval) => ctx.eval(),
+            Ok(Ev::Count(k, n)) => ctx.count(&k, n),
+            Ok(Ev::Nontrivial(h)) => ctx.nontrivial(h),
+            Ok(Ev::Sample(j)) => ctx.sample(j),
+            Ok(Ev::Limit(n)) => cur_limit = if n == 0 { limit } else { std::time::Duration::from_secs(n) },
+            Ok(Ev::Violation(a, s, d)) => {
+                if debug && !tally.contains_key(&format!("sig:{}", s)) {
+                    eprintln!("VIOL {} {}", s, short(&d.to_string(), 900));
+                }
+                *tally.entry(format!("sig:{}", s)).or_insert(0) += 1;
+                ctx.violation(&a, &s, d);
+            }
+            Ok(Ev::Inconclusive(r)) => ctx.inconclusive(&r),
+            Ok(Ev::Current(f, d)) => cur = (f, d),
+            Ok(Ev::Tally(k)) => *tally.entry(k).or_insert(0) += 1,
+            Ok(Ev::Done) => return Ok(()),
+            Err(std::sync::mpsc::RecvTimeoutError::Timeout) => return Err(cur),
+            Err(std::sync::mpsc::RecvTimeoutError::Disconnected) => return Ok(()),
+        }
+    }
+}
+
+// ---------------------------------------------------------------------------------------------
+// execution
+
+fn exec_params(db: &Db, sql: &str, params: &[OV]) -> Result<turdb::ExecuteResult, String> {
+    match catch(|| db.db.execute_with_params(sql, params)) {
+        Ok(Ok(r)) => Ok(r),
+        Ok(Err(e)) => Err(format!("{:#}", e)),
+        Err(p) => Err(format!("PANIC: {}", p)),
+    }
+}
+fn exec_sql(db: &Db, sql: &str) -> Result<turdb::ExecuteResult, String> {
+    match catch(|| db.db.execute(sql)) {
+        Ok(Ok(r)) => Ok(r),
+        Ok(Err(e)) => Err(format!("{:#}", e)),
+        Err(p) => Err(format!("PANIC: {}", p)),
+    }
+}
+fn query_raw(db: &Db, sql: &str) -> Result<Vec<turdb::Row>, String> {
+    match catch(|| db.db.query(sql)) {
+        Ok(Ok(r)) => Ok(r),
+        Ok(Err(e)) => Err(format!("{:#}", e)),
+        Err(p) => Err(format!("PANIC: {}", p)),
+    }
+}
+
+fn what_of_err(e: &str) -> String {
+    if is_panic(e) {
+        format!("panic:{}", panic_tag(e))
+    } else {
+        format!("error:{}", err_class(e))
+    }
+}
+
+#[derive(Clone)]
+struct Variant {
+    id: i64,
+    case_idx: usize,
+    write: &'static str,
+    op: &'static str,
+    stmts: Vec<String>,
+    /// expectation if it is not the case's own (row overwritten afterwards)
+    exp_override: Option<Exp>,
+}
+
+struct Runner<'a> {
+    ctx: &'a Sink,
+    plan: &'a Plan,
+    create: String,
+}
+
+impl<'a> Runner<'a> {
+    fn sig(&self, c: &Case, v: &Variant, read: &str, what: &str) -> String {
+        format!("C11/{}/{}/{}/{}/{}/{}", self.plan.ty, c.class, v.write, v.op, read, what)
+    }
+    fn report(&mut self, c: &Case, v: &Variant, read: &str, what: &str, got: Option<&OV>, err: Option<&str>) {
+        let sig = self.sig(c, v, read, what);
+        self.ctx.tally(format!("{}/{}", self.plan.ty, what.split(':').next().unwrap_or(what)));
+        let detail = json!({
+            "create": self.create,
+            "statements": v.stmts.iter().map(|s| short(s, 400)).collect::<Vec<_>>(),
+            "param": c.param.as_ref().filter(|_| v.write == "param").map(show_ov),
+            "read_path": read,
+            "expected": show_exp(v.exp_override.as_ref().unwrap_or(&c.exp)),
+            "got": got.map(show_ov),
+            "error": err.map(|e| short(e, 400)),
+        });
+        self.ctx.violation("same_type_same_value", &sig, detail);
+    }
+    /// announce the next TurDB call (used for the signature if it never returns)
+    fn mark(&self, c: &Case, v: &Variant, read: &str) {
+        self.ctx.current(format!("{}/{}/{}/{}/{}", self.plan.ty, c.class, v.write, v.op, read), json!({"create": self.create, "statements": v.stmts.iter().map(|s| short(s, 400)).collect::<Vec<_>>(), "about_to": read}));
+    }
+    /// compare one observed value
+    fn check(&mut self, c: &Case, v: &Variant, read: &str, got: Result<Option<OV>, String>) -> bool {
+        match got {
+            Ok(Some(g)) => match judge(v.exp_override.as_ref().unwrap_or(&c.exp), &g) {
+                None => true,
+                Some(w) => {
+                    self.report(c, v, read, w, Some(&g), None);
+                    false
+                }
+            },
+            Ok(None) => {
+                self.report(c, v, read, "missing_row", None, None);
+                false
+            }
+            Err(e) => {
+                let w = what_of_err(&e);
+                self.report(c, v, read, &w, None, Some(&e));
+                false
+            }
+        }
+    }
+}
+
+fn find_in_scan(rows: &Result<Vec<turdb::Row>, String>, id: i64) -> Result<Option<OV>, String> {
+    match rows {
+        Err(e) => Err(e.clone()),
+        Ok(rows) => {
+            let mut hit: Option<OV> = None;
+            let mut n = 0;
+            for r in rows {
+                if r.values.len() == 2 && matches!(&r.values[0], OV::Int(i) if *i == id) {
+                    hit = Some(r.values[1].clone());
+                    n += 1;
+                }
+            }
+            if n > 1 {
+                return Err(format!("duplicate rows for id {} in scan ({} copies)", id, n));
+            }
+            Ok(hit)
+        }
+    }
+}
+fn pk_lookup(db: &Db, id: i64) -> Result<Option<OV>, String> {
+    let rows = query_raw(db, &format!("SELECT v FROM t WHERE id = {}", id))?;
+    match rows.len() {
+        0 => Ok(None),
+        1 => rows[0].values.get(0).cloned().map(Some).ok_or_else(|| "row without columns".to_string()),
+        n => Err(format!("duplicate rows for id {} in primary key lookup ({} copies)", id, n)),
+    }
+}
+
+fn run_plan(ctx: &Sink, path: &std::path::Path, idx: usize, plan: &Plan, rng: &mut Rng, neighbour: &str) {
+    let _ = std::fs::remove_dir_all(path);
+    let mut db = match Db::create(path) {
+        Ok(d) => d,
+        Err(e) => {
+            ctx.inconclusive(&format!("cannot create database: {}", e));
+            return;
+        }
+    };
+    let create = format!("CREATE TABLE t (id INT PRIMARY KEY, v {}, pad TEXT)", plan.col);
+    if let Err(e) = db.exec(&create) {
+        let w = what_of_err(&e);
+        ctx.violation("same_type_same_value", &format!("C11/{}/create_table/-/-/-/{}", plan.ty, w), json!({"create": create, "error": e}));
+        return;
+    }
+    let mut r = Runner { ctx, plan, create };
+    // primary-key values far away from the internal row ids (1, 2, ...): UPDATE derives TOAST chunk ids from the
+    // primary key, INSERT from the row id; the aliasing of the two is probed by its own scenario
+    let mut next_id: i64 = 1_000_001;
+    let mut written: Vec<Variant> = vec![];
+    for (ci, c) in plan.cases.iter().enumerate() {
+        let mut combos: Vec<(&'static str, &'static str)> = vec![];
+        for w in ["literal", "param"] {
+            if (w == "literal" && c.lit.is_none()) || (w == "param" && c.param.is_none()) {
+                continue;
+            }
+            combos.push((w, "insert"));
+            if !c.huge {
+                combos.push((w, "update"));
+                if !plan.no_update_over {
+                    combos.push((w, "update_over"));
+                }
+            } else if w == "param" {
+                combos.push((w, "update"));
+            }
+        }
+        for (write, op) in combos {
+            let id = next_id;
+            next_id += 2;
+            let mut v = Variant { id, case_idx: ci, write, op, stmts: vec![], exp_override: None };
+            r.ctx.eval();
+            // --- write
+            let val_sql = if write == "literal" { c.lit.clone().unwrap() } else { "?".to_string() };
+            let params: Vec<OV> = if write == "literal" { vec![] } else { vec![c.param.clone().unwrap()] };
+            let write_res: Result<(), String>;
+            if op == "insert" {
+                let sql = if rng.chance(1, 2) { format!("INSERT INTO t VALUES ({}, {}, 'p')", id, val_sql) } else { format!("INSERT INTO t (id, v, pad) VALUES ({}, {}, 'p')", id, val_sql) };
+                v.stmts.push(sql.clone());
+                r.mark(c, &v, "write");
+                let res = if write == "literal" { exec_sql(&db, &sql) } else { exec_params(&db, &sql, &params) };
+                write_res = res.map(|_| ());
+            } else {
+                // baseline row: NULL, or another value of the same type (a different case), written by the path that exists
+                let base_sql = if op == "update" {
+                    format!("INSERT INTO t VALUES ({}, NULL, 'p')", id)
+                } else {
+                    let other = &plan.cases[(ci + 1 + rng.below(plan.cases.len() as u64) as usize) % plan.cases.len()];
+                    match (&other.lit, other.huge) {
+                        (Some(l), false) => format!("INSERT INTO t VALUES ({}, {}, 'p')", id, l),
+                        _ => format!("INSERT INTO t VALUES ({}, NULL, 'p')", id),
+                    }
+                };
+                v.stmts.push(base_sql.clone());
+                r.ctx.current(format!("{}/baseline_row/literal/insert/write", plan.ty), json!({"create": r.create, "statement": short(&base_sql, 400)}));
+                if let Err(e) = exec_sql(&db, &base_sql) {
+                    // the baseline itself could not be written: that failure belongs to the other case's own variants
+                    r.ctx.count("baseline_write_failed", 1);
+                    let _ = e;
+                    continue;
+                }
+                let sql = format!("UPDATE t SET v = {} WHERE id = {}", val_sql, id);
+                v.stmts.push(sql.clone());
+                r.mark(c, &v, "write");
+                let res = if write == "literal" { exec_sql(&db, &sql) } else { exec_params(&db, &sql, &params) };
+                write_res = match res {
+                    Ok(turdb::ExecuteResult::Update { rows_affected, .. }) if rows_affected != 1 => Err(format!("update reported {} rows affected", rows_affected)),
+                    Ok(_) => Ok(()),
+                    Err(e) => Err(e),
+                };
+            }
+            if let Err(e) = write_res {
+                let w = what_of_err(&e);
+                r.report(c, &v, "write", &w, None, Some(&e));
+                continue;
+            }
+            // --- read back: full scan, primary key lookup
+            let mut ok = true;
+            r.mark(c, &v, "scan");
+            let scan = query_raw(&db, "SELECT id, v FROM t");
+            ok &= r.check(c, &v, "scan", find_in_scan(&scan, id));
+            drop(scan);
+            r.mark(c, &v, "pk");
+            ok &= r.check(c, &v, "pk", pk_lookup(&db, id));
+            // --- a second, large row is written next to it
+            let nsql = format!("INSERT INTO t VALUES ({}, NULL, '{}')", id + 1, neighbour);
+            r.mark(c, &v, "after_neighbour");
+            match exec_sql(&db, &nsql) {
+                Ok(_) => {
+                    ok &= r.check(c, &v, "after_neighbour", pk_lookup(&db, id));
+                }
+                Err(_) => r.ctx.count("neighbour_write_failed", 1),
+            }
+            let h = fnv(format!("{}|{}|{}|{}|{}", plan.ty, plan.col, c.class, write, op).as_bytes());
+            r.ctx.nontrivial(h);
+            r.ctx.count(&format!("variants_{}_{}", write, op), 1);
+            if ok {
+                r.ctx.count("variants_all_reads_equal_before_reopen", 1);
+            }
+            if (ci + idx) % 7 == 3 && written.len() % 5 == 0 {
+                r.ctx.sample(json!({"type": plan.col, "class": c.class, "write": write, "op": op, "statements": v.stmts.iter().map(|s| short(s, 160)).collect::<Vec<_>>(), "expected": show_exp(&c.exp)}));
+            }
+            if op == "insert" && c.then_overwritten {
+                // the stored value is overwritten: the UPDATE must succeed and the row must read back as NULL
+                let mut v2 = Variant { id, case_idx: ci, write, op: "then_overwritten", stmts: v.stmts.clone(), exp_override: Some(Exp::Exact(OV::Null)) };
+                let sql = format!("UPDATE t SET v = {} WHERE id = {}", if write == "literal" { "NULL" } else { "?" }, id);
+                v2.stmts.push(sql.clone());
+                r.ctx.eval();
+                r.mark(c, &v2, "write");
+                // a single-row UPDATE of a 17-byte value takes well under a millisecond
+                r.ctx.limit(8);
+                let res = if write == "literal" { exec_sql(&db, &sql) } else { exec_params(&db, &sql, &[OV::Null]) };
+                r.ctx.limit(0);
+                match res {
+                    Ok(_) => {
+                        r.mark(c, &v2, "pk");
+                        r.check(c, &v2, "pk", pk_lookup(&db, id));
+                        r.ctx.nontrivial(fnv(format!("{}|{}|{}|{}|then_overwritten", plan.ty, plan.col, c.class, write).as_bytes()));
+                        written.push(v2);
+                    }
+                    Err(e) => {
+                        let w = what_of_err(&e);
+                        r.report(c, &v2, "write", &w, None, Some(&e));
+                    }
+                }
+                continue;
+            }
+            written.push(v);
+        }
+    }
+    if let Ok(dir) = std::env::var("TV_DUMP_DIR") {
+        // debugging aid: the literal-path statements of this plan, replayable with `tv C11 --replay <file>`
+        let mut log: Vec<String> = vec![r.create.clone()];
+        for v in &written {
+            if v.write == "literal" {
+                log.extend(v.stmts.iter().cloned());
+                log.push("SELECT id, v FROM t".into());
+                log.push(format!("INSERT INTO t VALUES ({}, NULL, '{}')", v.id + 1, neighbour));
+            }
+        }
+        let _ = std::fs::create_dir_all(&dir);
+        let _ = std::fs::write(format!("{}/plan{}.json", dir, idx), serde_json::to_string(&log).unwrap());
+    }
+    // --- close + reopen
+    r.ctx.current(format!("{}/reopen/-/-/reopen", plan.ty), json!({"create": r.create, "rows_written": written.len()}));
+    drop(db);
+    let db = match Db::open(path) {
+        Ok(d) => d,
+        Err(e) => {
+            let w = what_of_err(&e);
+            r.ctx.violation("same_type_same_value", &format!("C11/{}/reopen/-/-/reopen/{}", plan.ty, w), json!({"create": r.create, "error": e, "rows_written": written.len()}));
+            return;
+        }
+    };
+    let scan = query_raw(&db, "SELECT id, v FROM t");
+    for v in &written {
+        let c = &plan.cases[v.case_idx];
+        r.check(c, v, "reopen_scan", find_in_scan(&scan, v.id));
+        r.mark(c, v, "reopen_pk");
+        r.check(c, v, "reopen_pk", pk_lookup(&db, v.id));
+        r.ctx.count("reopen_reads", 2);
+    }
+}
+
+/// UPDATE and INSERT must not confuse a row's primary-key value with another row's internal row id when they
+/// move values out of line: six rows with TOAST-sized values whose primary keys are the reverse of the insertion
+/// order, then every row is updated to a new TOAST-sized value, then to a small one; after each statement every
+/// row must read back as last written.
+fn scenario_pk_vs_rowid(ctx: &Sink, path: &std::path::Path, ty: &'static str, col: &str, rng: &mut Rng) {
+    let _ = std::fs::remove_dir_all(path);
+    let mut db = match Db::create(path) {
+        Ok(d) => d,
+        Err(e) => {
+            ctx.inconclusive(&format!("cannot create database: {}", e));
+            return;
+        }
+    };
+    let mk = |rng: &mut Rng, n: usize| -> (String, OV) {
+        if ty == "BLOB" {
+            let b = blob_bytes(rng, "bin", n);
+            (lit_blob(&b), OV::Blob(b))
+        } else {
+            let t = gen_text(rng, "ascii", n);
+            (lit_text(&t), OV::Text(t))
+        }
+    };
+    let create = format!("CREATE TABLE t (id INT PRIMARY KEY, v {})", col);
+    let mut log = vec![create.clone()];
+    if db.exec(&create).is_err() {
+        return;
+    }
+    let n = 6i64;
+    let mut want: BTreeMap<i64, OV> = BTreeMap::new();
+    let mut steps: Vec<(String, i64, OV, &'static str)> = vec![];
+    for k in 0..n {
+        let id = n - k;
+        let (l, v) = mk(rng, 1400 + 10 * k as usize);
+        steps.push((format!("INSERT INTO t VALUES ({}, {})", id, l), id, v, "insert"));
+    }
+    for id in 1..=n {
+        let (l, v) = mk(rng, 1500 + 10 * id as usize);
+        steps.push((format!("UPDATE t SET v = {} WHERE id = {}", l, id), id, v, "update_over"));
+    }
+    for id in 1..=n {
+        let (l, v) = mk(rng, 5);
+        steps.push((format!("UPDATE t SET v = {} WHERE id = {}", l, id), id, v, "update_to_inline"));
+    }
+    let class = "pk_equals_other_rowid_toast1_1500";
+    for (sql, id, v, op) in steps {
+        ctx.eval();
+        ctx.current(format!("{}/{}/literal/{}/write", ty, class, op), json!({"statements": log.iter().map(|s| short(s, 120)).collect::<Vec<_>>(), "about_to": short(&sql, 120)}));
+        log.push(sql.clone());
+        let detail = |extra: J| json!({"statements": log.iter().map(|s| short(s, 120)).collect::<Vec<_>>(), "extra": extra});
+        match exec_sql(&db, &sql) {
+            Ok(_) => {
+                want.insert(id, v);
+            }
+            Err(e) => {
+                ctx.tally(format!("{}/{}", ty, what_of_err(&e).split(':').next().unwrap_or("error")));
+                ctx.violation("same_type_same_value", &format!("C11/{}/{}/literal/{}/write/{}", ty, class, op, what_of_err(&e)), detail(json!({"error": e})));
+                continue;
+            }
+        }
+        // every row written so far reads back as last written (primary-key lookups: one row's damage must not hide the others)
+        for (rid, exp) in &want {
+            let got = pk_lookup(&db, *rid);
+            let what = match &got {
+                Ok(Some(g)) => judge(&Exp::Exact(exp.clone()), g).map(|s| s.to_string()),
+                Ok(None) => Some("missing_row".to_string()),
+                Err(e) => Some(what_of_err(e)),
+            };
+            if let Some(w) = what {
+                let whose = if *rid == id { "pk" } else { "other_row_pk" };
+                ctx.tally(format!("{}/{}", ty, w.split(':').next().unwrap_or(&w)));
+                ctx.violation("same_type_same_value", &format!("C11/{}/{}/literal/{}/{}/{}", ty, class, op, whose, w), detail(json!({"row": rid, "expected": show_ov(exp), "got": got.as_ref().ok().and_then(|g| g.as_ref()).map(show_ov), "error": got.as_ref().err()})));
+            }
+        }
+        ctx.nontrivial(fnv(format!("scenario|{}|{}|{}", ty, op, id).as_bytes()));
+    }
+}
+
+/// record-level round trip (no files, also usable under Miri): OwnedValue -> RecordBuilder -> RecordView -> OwnedValue
+fn record_roundtrip(ctx: &mut Ctx, plans: &[Plan], by_what: &mut BTreeMap<String, u64>) {
+    for plan in plans {
+        let schema = turdb::records::Schema::new(vec![RColumnDef::new("id".to_string(), RDT::Int4), RColumnDef::new("v".to_string(), plan.rdt), RColumnDef::new("pad".to_string(), RDT::Text)]);
+        for c in &plan.cases {
+            let Some(p) = &c.param else { continue };
+            if c.huge {
+                continue;
+            }
+            // values above 65535 bytes cannot be inline records (they are TOASTed by the SQL layer)
+            let len = match p {
+                OV::Text(s) => s.len(),
+                OV::Blob(b) | OV::Jsonb(b) => b.len(),
+                OV::Vector(v) => v.len() * 4,
+                _ => 0,
+            };
+            if len > 60_000 {
+                continue;
+            }
+            // a 17-byte value starting with 0xFE is, by design of the record layer, reported as a TOAST pointer;
+            // what that means for users is judged at the SQL level
+            if matches!(p, OV::Blob(b) if b.len() == 17 && b[0] == 0xFE) {
+                continue;
+            }
+            // INET columns are declared Inet6; an Inet4 value has its own record type
+            let rdt = if matches!(p, OV::Inet4(_)) { RDT::Inet4 } else { plan.rdt };
+            let schema_local;
+            let schema_ref = if rdt != plan.rdt {
+                schema_local = turdb::records::Schema::new(vec![RColumnDef::new("id".to_string(), RDT::Int4), RColumnDef::new("v".to_string(), rdt), RColumnDef::new("pad".to_string(), RDT::Text)]);
+                &schema_local
+            } else {
+                &schema
+            };
+            ctx.eval();
+            let vals = vec![OV::Int(7), p.clone(), OV::Text("p".into())];
+            let res = catch(|| -> Result<OV, String> {
+                let rec = OV::build_record_from_values(&vals, schema_ref).map_err(|e| format!("{:#}", e))?;
+                let view = turdb::records::RecordView::new(&rec, schema_ref).map_err(|e| format!("{:#}", e))?;
+                OV::from_record_column(&view, 1, rdt).map_err(|e| format!("{:#}", e))
+            });
+            let res = match res {
+                Ok(r) => r,
+                Err(p) => Err(format!("PANIC: {}", p)),
+            };
+            // the record layer returns DECIMAL as Decimal, REAL as f32-narrowed Float: same expectations apply
+            let what = match &res {
+                Ok(g) => judge(&c.exp, g).map(|s| s.to_string()),
+                Err(e) => Some(what_of_err(e)),
+            };
+            ctx.count("record_roundtrips", 1);
+            ctx.nontrivial(fnv(format!("rec|{}|{}|{}", plan.ty, plan.col, c.class).as_bytes()));
+            if let Some(w) = what {
+                *by_what.entry(format!("{}/record/{}", plan.ty, w.split(':').next().unwrap_or(&w))).or_insert(0) += 1;
+                let sig = format!("C11/{}/{}/param/record_build/record_view/{}", plan.ty, c.class, w);
+                *by_what.entry(format!("sig:{}", sig)).or_insert(0) += 1;
+                ctx.violation("same_type_same_value", &sig, json!({"column_type": format!("{:?}", rdt), "value": show_ov(p), "expected": show_exp(&c.exp), "got": res.as_ref().ok().map(show_ov), "error": res.as_ref().err()}));
+            }
+        }
+    }
+}
+
+/// `tv C11 --replay statements.json`: run a JSON array of SQL statements on a fresh database (debugging aid)
+fn replay(path: &str) -> i32 {
+    let stmts: Vec<String> = serde_json::from_str(&std::fs::read_to_string(path).expect("read replay file")).expect("JSON array of strings");
+    let scratch = Scratch::new("c11-replay");
+    let mut db = Db::create(&scratch.dir("db")).expect("create");
+    for (i, st) in stmts.iter().enumerate() {
+        if st == "#reopen" {
+            let p = db.path.clone();
+            drop(db);
+            db = Db::open(&p).expect("reopen");
+            println!("{:4} reopened", i);
+            continue;
+        }
+        let r = match exec_sql(&db, st) {
+            Ok(turdb::ExecuteResult::Select { rows, .. }) => format!("{} rows: {}", rows.len(), short(&rows.iter().map(|r| r.values.iter().map(show_ov).collect::<Vec<_>>().join(",")).collect::<Vec<_>>().join(" | "), 300)),
+            Ok(o) => short(&format!("{:?}", o), 120),
+            Err(e) => format!("ERR {}", short(&e, 300)),
+        };
+        println!("{:4} {} => {}", i, short(st, 90), r);
+    }
+    0
+}
+
+pub fn run(a: &Args) -> i32 {
+    if let Some(p) = &a.replay {
+        return replay(p);
+    }
+    let mut ctx = Ctx::new(
+        "C11",
+        &a.tier,
+        a.seed,
+        "exploration",
+        "for each column type (BOOLEAN SMALLINT INT BIGINT REAL DOUBLE DECIMAL CHAR(n) VARCHAR(n) TEXT BLOB DATE TIME TIMESTAMP TIMESTAMPTZ INTERVAL UUID JSONB VECTOR(d) INET MACADDR POINT BOX CIRCLE) a fresh database with `t(id INT PRIMARY KEY, v <type>, pad TEXT)`; boundary-stratified values (integer extremes per width, NaN/inf/-0.0/subnormals, text and blob sizes 0,1,999,1000,1001,4000,4001,16383..16385,70000 plus seed-dependent sizes and a multi-MiB stratum, valid-UTF-8 blobs, 4-byte scalars and combining marks, quotes/backslashes, dates in years 1..9999, JSON documents, vectors of several dimensions) are written by SQL literal and by bound parameter (execute_with_params), via INSERT, via UPDATE of a NULL row and via UPDATE over another value; each written value is read back by full scan, by primary-key lookup, after a 3000-byte neighbour row was inserted, and after close + Database::open (scan and PK); sub-assertion same_type_same_value against a harness-computed expectation. One evaluation = one (value, write path, statement kind) variant; distinct_nontrivial = distinct (type, class, write path, statement kind) whose write succeeded and was read back, plus record-level round trips",
+    );
+    let mut rng = Rng::derive(a.seed, 11);
+    let quick = ctx.quick();
+    let miri = cfg!(miri);
+    let plans = std::sync::Arc::new(build_plans(&mut rng, quick, miri));
+    let mut by_what: BTreeMap<String, u64> = BTreeMap::new();
+    record_roundtrip(&mut ctx, &plans, &mut by_what);
+    if !miri {
+        let scratch = Scratch::new("c11");
+        let neighbour = "n".repeat(3000);
+        let budget = if quick { 50.0 } else { 540.0 };
+        // no event from the worker for this long = the TurDB call does not return
+        let limit = std::time::Duration::from_secs(if quick { 25 } else { 60 });
+        let debug = std::env::var("TV_DEBUG").is_ok();
+        for i in 0..plans.len() {
+            if ctx.elapsed() > budget {
+                ctx.count("plans_skipped_time_budget", (plans.len() - i) as u64);
+                break;
+            }
+            if debug {
+                eprintln!("[{:.1}s] plan {} {} ({} cases)", ctx.elapsed(), i, plans[i].col, plans[i].cases.len());
+            }
+            let (tx, rx) = std::sync::mpsc::channel();
+            let sink = Sink(tx);
+            let (pl, path, nb, mut prng) = (plans.clone(), scratch.root.join(format!("db{}", i)), neighbour.clone(), Rng::new(rng.next()));
+            let _worker = std::thread::spawn(move || {
+                run_plan(&sink, &path, i, &pl[i], &mut prng, &nb);
+                sink.done();
+            });
+            match pump(&mut ctx, &rx, limit, &mut by_what) {
+                Ok(()) => {}
+                Err((frag, detail)) => {
+                    // the worker thread is abandoned (it still burns a core until the process exits)
+                    *by_what.entry(format!("{}/hang", plans[i].ty)).or_insert(0) += 1;
+                    *by_what.entry(format!("sig:C11/{}/hang", frag)).or_insert(0) += 1;
+                    ctx.violation("same_type_same_value", &format!("C11/{}/hang", frag), json!({"no_progress_for_s": limit.as_secs(), "last": detail}));
+                    ctx.count("abandoned_hanging_workers", 1);
+                }
+            }
+            ctx.count("databases", 1);
+        }
+        for (k, (ty, col)) in [("TEXT", "TEXT"), ("BLOB", "BLOB"), ("VARCHAR", "VARCHAR(5000)")].into_iter().enumerate() {
+            let (tx, rx) = std::sync::mpsc::channel();
+            let sink = Sink(tx);
+            let (path, mut prng) = (scratch.root.join(format!("scenario{}", k)), Rng::new(rng.next()));
+            let _worker = std::thread::spawn(move || {
+                scenario_pk_vs_rowid(&sink, &path, ty, col, &mut prng);
+                sink.done();
+            });
+            if let Err((frag, detail)) = pump(&mut ctx, &rx, limit, &mut by_what) {
+                *by_what.entry(format!("sig:C11/{}/hang", frag)).or_insert(0) += 1;
+                ctx.violation("same_type_same_value", &format!("C11/{}/hang", frag), json!({"no_progress_for_s": limit.as_secs(), "last": detail}));
+                ctx.count("abandoned_hanging_workers", 1);
+            }
+            ctx.count("databases", 1);
+        }
+    }
+    let (sigs, kinds): (Vec<_>, Vec<_>) = by_what.iter().partition(|(k, _)| k.starts_with("sig:"));
+    let sigs: BTreeMap<String, u64> = sigs.into_iter().map(|(k, v)| (k[4..].to_string(), *v)).collect();
+    let kinds: BTreeMap<String, u64> = kinds.into_iter().map(|(k, v)| (k.clone(), *v)).collect();
+    ctx.extra.insert("violations_by_type_and_kind".into(), json!(kinds));
+    ctx.extra.insert("violations_by_signature".into(), json!(sigs));
+    ctx.assumptions.push("REAL: the value read back may be the written f64 or its nearest f32 (README: 32-bit float); only values inside the f32 range are written".into());
+    ctx.assumptions.push("DECIMAL: only values exactly representable in binary floating point with at most 4 decimals; the value may come back as Decimal or as Float with equal numeric value".into());
+    ctx.assumptions.push("CHAR(n): padding is undocumented, equality is asserted after trimming trailing spaces; values never end in a space and never exceed n bytes".into());
+    ctx.assumptions.push("TIMESTAMPTZ literals carry no offset (none is parsed); only the instant is judged for literals, instant and offset for parameters".into());
+    ctx.assumptions.push("no SQL literal form exists for INET, MACADDR, POINT, BOX, CIRCLE, NaN and infinities, extreme INTERVALs: these are written through the parameter path only".into());
+    ctx.assumptions.push("JSONB is compared as a JSON value (numbers as f64, object key order irrelevant, no duplicate keys generated)".into());
+    ctx.finish()
 }
